@@ -213,8 +213,24 @@ def _djob(chunk):
     return n, bad[:20]
 
 
+TARGETS = ['a[0]', 'a[1]', 'm[1][0]', 'o.list[0]', 'a.b', 'a.b.c', 'a[10]', 'a[0][0]']
+
+
+def judge_target(t):
+    """an assignment to an element / member target is filed under the spelling of that target, and nothing else"""
+    from calmjs.parse.parsers.es5 import parse
+    from calmjs.parse.unparsers.extractor import ast_to_dict
+    d = ast_to_dict(parse('%s = [1, "x"];' % t))
+    if d != {t: [1, 'x']}:
+        return 'assignment `%s = [1, "x"];` is extracted as %r, expected %r' % (t, d, {t: [1, 'x']})
+    return None
+
+
 def replay(d):
     w = d['input']
+    if 'target' in w:
+        msg = judge_target(w['target'])
+        return bool(msg), msg or 'ok'
     msg = judge(w['json'], CONTEXTS[w['context']], w['fold_ops'])
     return bool(msg), 'JSON %r bound by %r (fold_ops=%r): %s' % (w['json'], CONTEXTS[w['context']], w['fold_ops'], msg or 'ok')
 
@@ -240,6 +256,10 @@ def main():
         for n in NUM_SPELLINGS[: (None if th else 10)]:
             jtexts += ['[%s, %s]' % (s, n), '{"a": %s, "b": [%s, {"c": %s}]}' % (n, s, n), '{%s: %s}' % (s, n) if s != '""' or True else '']
     jtexts += ['[]', '{}', '[[], {}]', '{"a": {"b": {"c": [1, [2, [3]]]}}}', '[-1.5e3, -0, 0.5, true, null, "x"]']
+    # repeated keys (the later one wins, also when its value is null / false / 0 / empty) and falsy values at every position
+    jtexts += ['{"k": 1, "k": null}', '{"k": null, "k": 1}', '{"k": [1], "k": false}', '{"k": "x", "k": 0}', '{"k": {"a": 1}, "k": {}}', '{"a": {"k": 1, "k": null}}',
+               '[{"k": 1, "k": null}]', '{"k": 1, "k": ""}', '[null, 0, "", false, [], {}]', '{"a": null, "b": 0, "c": "", "d": false, "e": [], "f": {}}',
+               '[-0.5, -1e3, -2.5e-3, -0.0, -1]', '{"n": -0.5}']
     jtexts = list(dict.fromkeys(jtexts))
     djobs = [(j, ci, fold) for j in jtexts for ci in range(len(CONTEXTS)) for fold in (False, True)]
     dres = common.pmap(_djob, [djobs[i::64] for i in range(64)])
@@ -255,6 +275,16 @@ def main():
             else:
                 key = 'C19 D: %s | %s' % (re.sub(r"%r|'(?:[^'\\]|\\.)*'|\"(?:[^\"\\]|\\.)*\"|\d+", '..', msg)[:70], jtext[:40])
             pending.setdefault(key, (jtext, ci, fold, msg))
+    for t in TARGETS:
+        msg = judge_target(t)
+        if msg:
+            rpd = {'property': 'C19', 'input': {'target': t}}
+            ok, detail = rp.run_in_subprocess(rpd)
+            if ok:
+                run.violation('C19 D: an assignment to an element or member target is not filed under the spelling of the target', detail[:400], rpd)
+                break
+            run.inconclusive_('target name difference did not reproduce: %s' % t)
+    run.leg('D_assignment_targets', targets=len(TARGETS))
     for key, (jtext, ci, fold, msg) in list(pending.items())[:25]:
         rpd = {'property': 'C19', 'input': {'json': jtext, 'context': ci, 'fold_ops': fold}}
         ok, detail = rp.run_in_subprocess(rpd)
